@@ -860,7 +860,9 @@ class LatticeConstraints(keras.constraints.Constraint):
         monotonic_dominances=monotonic_dominances,
         range_dominances=range_dominances,
         joint_monotonicities=joint_monotonicities,
-        joint_unimodalities=joint_unimodalities)
+        joint_unimodalities=joint_unimodalities,
+        output_min=output_min,
+        output_max=output_max)
 
     self.lattice_sizes = lattice_sizes
     self.monotonicities = utils.canonicalize_monotonicities(
